@@ -19,6 +19,7 @@ CLAIMS = {
  "C05": ("TLC validates every decode_ct/decode32/decode/decode_reduce/encode call recorded over all lengths 0..3*ENC_LEN+1 and boundary contents against the codec operators of PrimeField.tla.", TV),
  "C11": ("TLC checks the relational split contract (k*c1'=c0' mod q with the documented correction, (0,1) for zero) on every recorded split_vartime call, including fraction-shaped and unbalanced scalars; non-termination is observed by a per-call watchdog and rejected as a non-transition.", "TLA+ relational spec + TLC trace validation; watchdog for termination"),
  "C12": ("TLC validates division, inversion, batch inversion, Legendre symbol and square roots (relationally) of every recorded call against PrimeField.tla on GCD-pathological divisors (2^s, q-2^s, t*2^s sweep, shared top bits) in all representations.", TV),
+ "C15": ("TLC enumerates FROST sessions (thresholds, arrival orders with duplicates and surplus signers, corruption sites) from FrostGen.tla, checking the coordinator's selection contract on the model; sampled sessions are replayed into the five ciphersuites and TLC recomputes every decision and value from the RFC 9591 specification in Frost.tla (VSS consistency, commitments, signature shares, share verification, aggregation, group / RFC 8032 verification, strict wire decoders).", "TLC-generated behaviours replayed into the code + TLC trace validation against a TLA+ transcription of RFC 9591"),
  "C16": ("TLC model-checks the key-counter design (LmsGen.tla: no leaf reuse, strictly increasing indices, state advanced before a signature is visible, termination) over every interleaving of sign / RNG-failure / exhausted-sign for a small tree, enumerates the histories for the real height with an RNG failure injected at every call position, and validates the replayed traces (leaf index of every signature, state after every call, verification accepts exactly the issued pairs; selected signatures recomputed with RFC 8554 in TLC).", "TLC model checking of the key state machine + TLC-generated histories replayed into the code + TLC trace validation"),
  "C18": ("The field, group, hash and signature programs are re-executed under each non-default build configuration that compiles on this host and validated by TLC against the same TLA+ specification, so that every specified output equals one value whatever the backend.", TV),
  "C17": ("TLC enumerates every allowed call history (depth 3, 2 instances, symbolic length classes) of the HashGen.tla API model; the histories are replayed into the real hash types and TLC recomputes every digest / SHAKE chunk from the abstract message with SHA2.tla / Keccak.tla / Blake2s.tla (TraceHash.tla).", "TLC-generated behaviours replayed into the code + TLC trace validation against TLA+ hash specifications"),
@@ -27,6 +28,8 @@ CLAIMS = {
 NA_C02 = ("Constant-time behaviour is a property of branch targets and addresses in optimised machine code as a function of "
           "secret data; a TLA+ specification and API-level traces cannot observe it (needs binary-level taint tracking, a "
           "different technique). See DESIGN.md section 6, C02.")
+LEVELS = {"C19": "exploration"}
+CLAIMS["C19"] = ("Exploration: 50+ untrusted-input entry points swept over every length and several content classes, FROST verification on malformed lists, truncated verification over its whole rm range, and the decoding programs of the other properties, with TLC applying the acceptance rule of TraceTotal.tla (inside the documented domain a call returns; status words are 0 or 0xFFFFFFFF; a panic or watchdog timeout is no transition).", "input sweep recorded as a trace + TLC acceptance rule (documented domains in TLA+)")
 checks, na = [], []
 for p in props:
     pid = p["id"]
@@ -36,7 +39,7 @@ for p in props:
                        "thorough_cmd": "bin/check %s --tier thorough" % pid,
                        "evidence_file": "/verif/evidence/%s.json" % pid,
                        "replay_cmd_template": "bin/check --replay {path}", "engine": "tlc-trace-validation",
-                       "level_claimed": {"category": "model_checking", "text": text,
+                       "level_claimed": {"category": LEVELS.get(pid, "model_checking"), "text": text,
                                          "design_ref": "DESIGN.md section 6 (%s)" % pid},
                        "level_note": TB, "technique": tech})
     elif pid == "C02":
